@@ -112,6 +112,7 @@ type World struct {
 	TextBase int
 	// Hook is called after each event with the event record (monitors).
 	Hook func(ev M, p *Party)
+	bufs map[string][]byte
 	// KeepRaw makes events carry the raw bytes (hex) of inputs and outputs.
 	KeepRaw bool
 }
@@ -365,6 +366,16 @@ func (w *World) AbsState(p *Party) M {
 	}
 	st["held"], st["kept"], st["dirty"] = held, kept, dirty
 	st["nctr"], st["nmac"], st["npend"], st["nrsq"] = len(s.Counters), len(s.MACHistory), len(s.OldMACKeys), len(s.ResendQueue)
+	// how many entries of the disclosure list repeat an earlier one (byte for byte)
+	dup := 0
+	seenKeys := map[string]bool{}
+	for _, k := range s.OldMACKeys {
+		if seenKeys[string(k)] {
+			dup++
+		}
+		seenKeys[string(k)] = true
+	}
+	st["penddup"] = dup
 	return st
 }
 
@@ -817,6 +828,21 @@ func (w *World) smpTerm(p *Party, initiator bool, sid int) []interface{} {
 	return []interface{}{peer, p.Name, sess[0], sess[1], sid}
 }
 
+// callerBuf returns the application's own buffer for a value it passes to the library again and again (the
+// user's SMP secret kept in a password field, say): the same slice every time, as an application would do.
+// What the library does to it stays done.
+func (w *World) callerBuf(p *Party, kind string, id int, b []byte) []byte {
+	if w.bufs == nil {
+		w.bufs = map[string][]byte{}
+	}
+	k := fmt.Sprintf("%s/%s/%d", p.Name, kind, id)
+	if old, ok := w.bufs[k]; ok {
+		return old
+	}
+	w.bufs[k] = append([]byte{}, b...)
+	return w.bufs[k]
+}
+
 func (w *World) SMPStart(p *Party, secret []byte, question string, sid int) M {
 	var out []otr3.ValidMessage
 	var err error
@@ -829,6 +855,7 @@ func (w *World) SMPStart(p *Party, secret []byte, question string, sid int) M {
 		run = w.smpRuns
 		p.SMPRun = run
 	}
+	secret = w.callerBuf(p, "s", sid, secret)
 	cr := w.call(p, func() { out, err = p.Conv.StartAuthenticate(question, secret) })
 	return w.record(M{"ev": "SMPStart", "s": sid, "q": question != "", "run": run, "big": big}, p, cr, w.emit(p, out), err)
 }
@@ -839,6 +866,7 @@ func (w *World) SMPAnswer(p *Party, secret []byte, sid int) M {
 	if p.Conv.IsEncrypted() {
 		p.SMPTerm = w.smpTerm(p, false, sid)
 	}
+	secret = w.callerBuf(p, "s", sid, secret)
 	cr := w.call(p, func() { out, err = p.Conv.ProvideAuthenticationSecret(secret) })
 	return w.record(M{"ev": "SMPAnswer", "s": sid}, p, cr, w.emit(p, out), err)
 }
